@@ -194,8 +194,10 @@ def c08_schema_updates_before_modify(run, w, rule_id="C08-R1"):
   fn = w.fn("useractions.UserActions._updateTableRecords")
   cfg = fn.cfg
   # the metadata write of the collected column updates
-  writes = [(n, c) for (n, c, nm) in fn.calls() if nm == "self.doBulkUpdateFromPairs" and
-            c.args and text(c.args[0]) == "'_grist_Tables_column'"]
+  from . import _h_B as H
+  writes = [(n, H.norm(w, fn, c)) for (n, c, nm) in fn.calls() if nm == "self.doBulkUpdateFromPairs"]
+  writes = [(n, c) for (n, c) in writes if len(c.args) >= 2 and
+            H.const_value(H.deref(fn, c.args[0])) == (True, "_grist_Tables_column")]
   if len(writes) != 1:
     raise AnalysisError("_updateTableRecords: column metadata write not found")
   wn, wc = writes[0]
@@ -206,8 +208,8 @@ def c08_schema_updates_before_modify(run, w, rule_id="C08-R1"):
   d = src.func.value.id
   # loops over the dict that call doModifyColumn with the collected values
   loops = [n for n in cfg.nodes if n.kind == "for" and text(n.stmt.iter) == d + ".items()" and
-           any(fn.name(c) == "self.doModifyColumn" and len(c.args) == 3 and
-               isinstance(c.args[2], ast.Name) for c in calls_in(n.stmt.body))]
+           any(fn.name(c) == "self.doModifyColumn" and len(H.norm(w, fn, c).args) == 3 and
+               isinstance(H.norm(w, fn, c).args[2], ast.Name) for c in calls_in(n.stmt.body))]
   if not loops:
     raise AnalysisError("_updateTableRecords: doModifyColumn loop over %s not found" % d)
   du = DefUse(fn)
